@@ -619,6 +619,9 @@ func TestCheck(t *testing.T) {
 								if (e1 == "P.tx" && !lockFree(wal, a1)) || (e2 == "P.tx" && !lockFree(wal, a2)) {
 									continue
 								}
+								if (e2 == "P.tx" && strings.HasPrefix(e1, "lock.")) || (e1 == "P.tx" && strings.HasPrefix(e2, "lock.") && a1 == a2) {
+									continue // the inserted lock is still held when the primary commits: the replica rightly waits
+								}
 								cases = append(cases, Case{WAL: wal, PageSize: 4096, Leftover: left, Insert: []string{e1, e2}, At: []int{a1, a2}})
 							}
 						}
